@@ -121,8 +121,17 @@ func (r *runner) newStore() {
 			}
 			for _, f := range fails {
 				if f.Handler == k && f.Height == height {
-					if f.Panic {
+					// what a handler fails WITH is its own business: also errors (and panic values) that
+					// wrap the not-found sentinels the store uses internally
+					switch kind := (uint64(k) + height) % 3; {
+					case f.Panic && kind == 1:
+						panic(fmt.Errorf("scripted handler panic: %w", datastore.ErrNotFound))
+					case f.Panic:
 						panic("scripted handler panic")
+					case kind == 1:
+						return fmt.Errorf("scripted handler error: aux data: %w", datastore.ErrNotFound)
+					case kind == 2:
+						return fmt.Errorf("scripted handler error: %w", header.ErrNotFound)
 					}
 					return errors.New("scripted handler error")
 				}
